@@ -16,6 +16,7 @@ import (
 	"sync"
 	"sync/atomic"
 	"testing"
+	"unicode"
 	"unicode/utf8"
 
 	"github.com/tailscale/setec/acl"
@@ -59,6 +60,22 @@ func stringsOver(sym []byte, n int) [][]byte {
 		for _, p := range prev {
 			for _, s := range sym {
 				cur = append(cur, append(append([]byte{}, p...), s))
+			}
+		}
+		out = append(out, cur...)
+		prev = cur
+	}
+	return out
+}
+
+func atomsOver(atoms [][]byte, n int) [][]byte {
+	out := [][]byte{{}}
+	prev := [][]byte{{}}
+	for l := 1; l <= n; l++ {
+		var cur [][]byte
+		for _, p := range prev {
+			for _, a := range atoms {
+				cur = append(cur, append(append([]byte{}, p...), a...))
 			}
 		}
 		out = append(out, cur...)
@@ -223,12 +240,22 @@ func isSpace(b byte) bool {
 
 // cliReference is the stated policy: (value sent, refused, either-of-two accepted).
 func cliReference(in []byte, verbatim, trim, emptyOK bool) (vals [][]byte, refused bool) {
+	// "whitespace" is Unicode white space (what Go calls unicode.IsSpace), decoded rune by rune from
+	// both ends; only consulted for valid UTF-8, where decoding cannot go wrong
 	i, j := 0, len(in)
-	for i < j && isSpace(in[i]) {
-		i++
+	for i < j {
+		r, sz := utf8.DecodeRune(in[i:j])
+		if !unicode.IsSpace(r) {
+			break
+		}
+		i += sz
 	}
-	for j > i && isSpace(in[j-1]) {
-		j--
+	for j > i {
+		r, sz := utf8.DecodeLastRune(in[i:j])
+		if !unicode.IsSpace(r) {
+			break
+		}
+		j -= sz
 	}
 	trimmed := in[i:j]
 	cands := [][]byte{in}
@@ -324,9 +351,12 @@ func cli(t *testing.T, env *report.Env, rep *report.Report, base string) {
 		n = 4
 	}
 	sec := rep.Add(&report.Section{Name: fmt.Sprintf("cli-put-all-flag-combinations-len%d", n), Engine: "enum", Exhaustive: true, Extra: map[string]int64{},
-		Rule: "the setec binary built from the working tree, against a loopback server: every combination of --verbatim, --trim-space, --empty-ok × source {--from-file, pipe} × every input over {20,0A,61,FF} up to the length bound; compared with a reference of the stated policy (value received by the server, exit status, and zero requests on refusal); non-trivial = inputs with surrounding whitespace or empty"})
+		Rule: "the setec binary built from the working tree, against a loopback server: every combination of --verbatim, --trim-space, --empty-ok × source {--from-file, pipe} × every input over {20,0A,61,FF} up to the length bound and over the atoms {U+3000, U+00A0, U+2003, 20, 61, FF} up to 2 (quick) / 3 (thorough) atoms; compared with a reference of the stated policy (value received by the server, exit status, and zero requests on refusal); non-trivial = inputs with surrounding whitespace or empty"})
 	bin := filepath.Join(base, "setec")
 	args := []string{"build", "-o", bin}
+	if mf := os.Getenv("VERIF_MODFILE"); mf != "" {
+		args = append(args, mf)
+	}
 	if ov := os.Getenv("VERIF_OVERLAY"); ov != "" {
 		args = append(args, "-overlay", ov)
 	}
@@ -352,6 +382,16 @@ func cli(t *testing.T, env *report.Env, rep *report.Report, base string) {
 	}))
 	defer srv.Close()
 	inputs := stringsOver([]byte{0x20, 0x0a, 0x61, 0xff}, n)
+	// multi-byte white space (U+3000, U+00A0, U+2003) next to ASCII white space, text and a binary byte
+	for _, in := range atomsOver([][]byte{[]byte("\u3000"), []byte("\u00a0"), []byte("\u2003"), {0x20}, {0x61}, {0xff}}, n/2+1) {
+		dup := false
+		for _, x := range inputs {
+			dup = dup || bytes.Equal(x, in)
+		}
+		if !dup {
+			inputs = append(inputs, in)
+		}
+	}
 	type job struct {
 		in                []byte
 		verb, trim, empty bool
